@@ -447,6 +447,19 @@ impl RWorld {
                     Ep::Srv(_) => unresolved_tree(),
                 }
             }
+            14 => {
+                // (14 e seq id): verification hook, the counters of a fresh connection move forward
+                let e = match parse_ep(&v[1]) { Some(e) => e, None => return bad() };
+                let (seq, id) = match (v.get(2).and_then(|t| t.as_u64()), v.get(3).and_then(|t| t.as_u64())) { (Some(a), Some(bb)) => (a, bb), _ => return bad() };
+                match e {
+                    Ep::Conn(k) => {
+                        let c = match self.conns.get_mut(&k) { Some(c) => c, None => return unresolved_tree() };
+                        c.verif_warp(seq, id);
+                        l(vec![])
+                    }
+                    Ep::Srv(_) => unresolved_tree(),
+                }
+            }
             30 => {
                 let e = match parse_ep(&v[1]) { Some(e) => e, None => return bad() };
                 let ch = v[2].as_u64().unwrap() as u8;
